@@ -158,11 +158,19 @@ def check_renumber(mir, res, rule):
     # the change records and the map
     chg = [g for g in mir.fns.values() if not g.derived and any(a for a in agg_fields(g, Exprs(g), "::IndexChange"))]
     n_chg = 0
+    OLD_F, NEW_F = "old", "new"
     for g in chg:
         for (v, w3) in agg_fields(g, Exprs(g), "::IndexChange"):
             n_chg += 1
             kshift = 0 if g.kind == "Closure" else 1  # a function passed by path has its argument in param1
-            ok = shift_params(v.get("old", ""), kshift) == "param2.1.0" and shift_params(v.get("new", ""), kshift) == "param2.0"
+            # the two fields are told apart by what is stored in them, not by their names: OLD holds the position
+            # stored with the item, NEW the position after sorting
+            sv = {k_: shift_params(x_, kshift) for k_, x_ in v.items()}
+            olds = [k_ for k_, x_ in sv.items() if x_ == "param2.1.0"]
+            news = [k_ for k_, x_ in sv.items() if x_ == "param2.0"]
+            ok = len(sv) == 2 and len(olds) == 1 and len(news) == 1
+            if ok:
+                OLD_F, NEW_F = olds[0], news[0]
             res.inst(rule, "sort|change-record", w3, True, "%s" % v)
             if not ok:
                 res.violate(rule, "sort|change-record", w3, "a change record must be {old: the position stored with the item, new: the position after sorting}; found %s — the updater would be the inverse permutation" % v)
@@ -192,7 +200,7 @@ def check_renumber(mir, res, rule):
             sorted_what = canon(Exprs(g).operand(srt[0].args[0]))
             keyc = canon(Exprs(g).operand(srt[0].args[1]))
             cls = {"key": callable_result(mir, g, keyc), "map": callable_result(mir, g, okm.group(2))}
-            good = sorted_what == okm.group(1) and cls["key"] == "param2.old" and cls["map"] == "param2.new"
+            good = sorted_what == okm.group(1) and cls["key"] == "param2.%s" % OLD_F and cls["map"] == "param2.%s" % NEW_F
         res.inst(rule, "sort|map", g.where, True, "%s ; key/map callables %s" % (rg[:160], cls))
         if not good:
             res.violate(rule, "sort|map", g.where, "the updater's map must list `new` in ascending order of `old` (sort_by_key(old), map(new)); found `%s` with %s" % (rg[:200], cls))
